@@ -4,12 +4,13 @@ import os, json, subprocess
 V = os.path.dirname(os.path.dirname(os.path.abspath(__file__)))
 
 ENGINE_TIMEOUT = 3000
+THOROUGH_PARALLEL = 4
 THOROUGH_SEEDS = 4
 SEARCH_BUDGET_S = 240
 
 # cases per engine run (after the seed-independent prelude)
 ENGINES = {
-    'breaker': dict(quick=2000, thorough=60000),
+    'breaker': dict(quick=2000, thorough=30000),
     'sf': dict(quick=400, thorough=8000),
     'sfwrap': dict(quick=600, thorough=20000),
     'caches': dict(quick=1500, thorough=40000),
